@@ -77,8 +77,16 @@ def selftest(rep, trace_module, trace_cfg, trace, extra_env=None, tries=8, keys=
     paths = list(_leaves(trace, (), keys))
     if not paths:
         return
+    # one corruption per distinct observed field (its occurrence in the middle of the trace), so that every kind of
+    # observation is falsified once; a few more spread evenly over the trace
+    byname = {}
+    for pth in paths:
+        name = "/".join(str(k) for k in pth if isinstance(k, str) and k != "steps")
+        byname.setdefault(name, []).append(pth)
+    chosen = [v[len(v) // 2] for k, v in sorted(byname.items())][:16]
     step = max(1, len(paths) // tries)
-    cands = [c for c in (_corrupt(trace, p) for p in paths[step // 2::step][:tries]) if c is not None]
+    chosen += [pth for pth in paths[step // 2::step][:tries] if pth not in chosen]
+    cands = [c for c in (_corrupt(trace, pth) for pth in chosen) if c is not None]
     if not cands:
         return
     res, _ = tlc.validate_traces(trace_module, trace_cfg, cands, 600, extra_env)
